@@ -308,6 +308,51 @@ def rescDForward (p : Params α) (e0 : Emis α) (es : List (Emis α)) (de0 : Emi
   let r := r0 :: rescDLoop p (zip5 flags es des fw.lik fw.scales.tail) r0.1
   { dLik := r.map (·.1), dScales := r.map (·.2.1), dLogLik := sumL (sortDesc (r.map (·.2.2))) }
 
+/-! ## RescaledHmmLikelihood::computeD2Forward_ (RescaledHmmLikelihood.cpp:486-602), as repaired
+(the accumulators that are reset are `d2Scales_[i]` and `d2LogLik_`).  `pow(x, 3)` is a libm call. -/
+
+def two : α := ofInt 2
+
+/-- from `tmp`, `dTmp`, `d2Tmp`, `scales_[i]`, `dScales_[i]`: (d2Likelihood_[i], d2Scales_[i], d2LScales[i]) -/
+def rescD2Site (tmp dTmp d2Tmp : List α) (c ds : α) : List α × α × α :=
+  let d2s := sumL d2Tmp
+  let row := (List.zip d2Tmp (List.zip tmp dTmp)).map (fun x =>
+    x.1 / c - (d2s * x.2.1 + two * ds * x.2.2) / (c * c) + two * (ds * ds) * x.2.1 / pow c (ofInt 3))
+  (row, d2s, d2s / c - (ds / c) * (ds / c))
+
+def rescD2Tmp (p : Params α) (brk : Bool) (e de d2e : Emis α) (prevLik prevDLik prevD2Lik : List α) :
+    List α × List α × List α :=
+  if brk then (vec p.n (fun j => e j * p.pi j), vec p.n (fun j => de j * p.pi j), vec p.n (fun j => d2e j * p.pi j))
+  else
+    (vec p.n (fun j => e j * dot (col p j) prevLik),
+     vec p.n (fun j => de j * dot (col p j) prevLik + e j * sumL (mulV (col p j) prevDLik)),
+     vec p.n (fun j => d2e j * dot (col p j) prevLik + two * de j * sumL (mulV (col p j) prevDLik)
+                        + e j * sumL (mulV (col p j) prevD2Lik)))
+
+/-- per site ≥ 1: (flag, e, de, d2e, likelihood_[i-1], dLikelihood_[i-1], scales_[i], dScales_[i]) -/
+def rescD2Loop (p : Params α) :
+    List (Bool × Emis α × Emis α × Emis α × List α × List α × α × α) → List α → List (List α × α × α)
+  | [], _ => []
+  | (b, e, de, d2e, prevLik, prevDLik, c, ds) :: rest, prevD2Lik =>
+    let t := rescD2Tmp p b e de d2e prevLik prevDLik prevD2Lik
+    let r := rescD2Site t.1 t.2.1 t.2.2 c ds
+    r :: rescD2Loop p rest r.1
+
+def zip8 {β γ δ ε ζ η θ ι : Type} : List β → List γ → List δ → List ε → List ζ → List η → List θ → List ι →
+    List (β × γ × δ × ε × ζ × η × θ × ι)
+  | a :: as, b :: bs, c :: cs, d :: ds, e :: es, f :: fs, g :: gs, h :: hs =>
+    (a, b, c, d, e, f, g, h) :: zip8 as bs cs ds es fs gs hs
+  | _, _, _, _, _, _, _, _ => []
+
+/-- `d2LogLik_`; `fw`, `dfw` = the cached results of `computeForward_` and `computeDForward_` -/
+def rescD2Forward (p : Params α) (e0 : Emis α) (es : List (Emis α)) (de0 : Emis α) (des : List (Emis α))
+    (d2e0 : Emis α) (d2es : List (Emis α)) (bps : List Nat) (fw : RescFwd α) (dfw : RescDFwd α) : α :=
+  let t0 := rescD2Tmp p true e0 de0 d2e0 [] [] []
+  let r0 := rescD2Site t0.1 t0.2.1 t0.2.2 (fw.scales.headD zero) (dfw.dScales.headD zero)
+  let flags := fwdFlags (es.length + 1) es.length 1 bps
+  let r := r0 :: rescD2Loop p (zip8 flags es des d2es fw.lik dfw.dLik fw.scales.tail dfw.dScales.tail) r0.1
+  sumL (sortDesc (r.map (·.2.2)))
+
 /-! ## The cache state machine of the likelihood objects
 
 `Tables` = what the alphabet / transition matrix / emission objects answer at a given time (the
@@ -320,6 +365,8 @@ structure Tables (α : Type) where
   es : List (Emis α)
   /-- `getDEmissionProbabilities` after `computeDEmissionProbabilities(variable)` -/
   dE : String → Emis α × List (Emis α)
+  /-- `getD2EmissionProbabilities` after `computeD2EmissionProbabilities(variable)` -/
+  d2E : String → Emis α × List (Emis α)
 
 /-- answers; `exc` = an exception reaches the caller -/
 inductive Ans (α : Type) where
@@ -336,6 +383,8 @@ inductive Op (α : Type) where
   | posterior
   /-- `getFirstOrderDerivative(var)` -/
   | d1 (var : String)
+  /-- `getSecondOrderDerivative(var)` -/
+  | d2 (var : String)
 
 /-! ### RescaledHmmLikelihood -/
 
@@ -347,6 +396,8 @@ structure RescObj (α : Type) where
   backUpToDate : Bool
   dVar : String
   dfw : RescDFwd α
+  d2Var : String
+  d2LogLik : α
 
 /-- `computeForward_`: `none` = throws (negative / NaN transition probability) before writing anything -/
 def rescCompute (t : Tables α) (bps : List Nat) : Option (RescFwd α) :=
@@ -357,18 +408,19 @@ def emptyD : RescDFwd α := { dLik := [], dScales := [], dLogLik := zero }
 /-- the constructor; `none` = it throws -/
 def RescObj.build (t : Tables α) : Option (RescObj α) :=
   (rescCompute t []).map (fun fw =>
-    { tab := t, bps := [], fw := fw, back := [], backUpToDate := false, dVar := "", dfw := emptyD })
+    { tab := t, bps := [], fw := fw, back := [], backUpToDate := false, dVar := "", dfw := emptyD,
+      d2Var := "", d2LogLik := zero })
 
 def RescObj.step (o : RescObj α) : Op α → RescObj α × Ans α
   | .setTables t =>
     -- fireParameterChanged (RescaledHmmLikelihood.cpp:73): the sub-objects already hold the new values
-    let o1 := { o with tab := t, dVar := "" }
+    let o1 := { o with tab := t, dVar := "", d2Var := "" }
     match rescCompute t o.bps with
     | none => (o1, .exc)
     | some fw => ({ o1 with fw := fw, backUpToDate := false }, .val fw.logLik)
   | .setBreaks bps =>
     -- setBreakPoints (RescaledHmmLikelihood.h:176)
-    let o1 := { o with bps := bps, dVar := "" }
+    let o1 := { o with bps := bps, dVar := "", d2Var := "" }
     match rescCompute o.tab bps with
     | none => (o1, .exc)
     | some fw => ({ o1 with fw := fw, backUpToDate := false }, .val fw.logLik)
@@ -385,6 +437,19 @@ def RescObj.step (o : RescObj α) : Op α → RescObj α × Ans α
       let d := rescDForward o.tab.p o.tab.e0 o.tab.es de.1 de.2 o.bps o.fw
       ({ o with dVar := var, dfw := d }, .val (-d.dLogLik))
     else (o, .val (-o.dfw.dLogLik))
+  | .d2 var =>
+    -- AbstractHmmLikelihood::getSecondOrderDerivative (HmmLikelihood.cpp:45); computeD2Forward_ first
+    -- calls getFirstOrderDerivative(d2Variable_)
+    if var != o.d2Var then
+      let o1 := if var != o.dVar then
+          let de := o.tab.dE var
+          { o with dVar := var, dfw := rescDForward o.tab.p o.tab.e0 o.tab.es de.1 de.2 o.bps o.fw }
+        else o
+      let de := o.tab.dE var
+      let d2e := o.tab.d2E var
+      let d2 := rescD2Forward o.tab.p o.tab.e0 o.tab.es de.1 de.2 d2e.1 d2e.2 o.bps o1.fw o1.dfw
+      ({ o1 with d2Var := var, d2LogLik := d2 }, .val (-d2))
+    else (o, .val (-o.d2LogLik))
 
 /-- what a fresh object built from the current tables (with the break points set) answers -/
 def rescSpec (t : Tables α) (bps : List Nat) : Op α → Ans α
@@ -393,6 +458,11 @@ def rescSpec (t : Tables α) (bps : List Nat) : Op α → Ans α
   | .d1 var =>
     let de := t.dE var
     .val (-(rescDForward t.p t.e0 t.es de.1 de.2 bps (rescForward t.p t.e0 (mkSites t.es bps))).dLogLik)
+  | .d2 var =>
+    let de := t.dE var
+    let d2e := t.d2E var
+    let fw := rescForward t.p t.e0 (mkSites t.es bps)
+    .val (-(rescD2Forward t.p t.e0 t.es de.1 de.2 d2e.1 d2e.2 bps fw (rescDForward t.p t.e0 t.es de.1 de.2 bps fw)))
 
 /-! ### LogsumHmmLikelihood (forward, backward, posteriors; its derivative recursions are not modelled) -/
 
@@ -430,12 +500,12 @@ def LogObj.step (o : LogObj α) : Op α → LogObj α × Ans α
     let o1 := if o.backUpToDate then o
       else { o with back := logBackward o.tab.p o.tab.es o.bps, backUpToDate := true }
     (o1, match logPosteriorOf o1.fw o1.back o1.bps with | some m => .mat m | none => .exc)
-  | .d1 _ => (o, .exc)   -- not modelled
+  | .d1 _ | .d2 _ => (o, .exc)   -- not modelled
 
 def logSpec (t : Tables α) (bps : List Nat) : Op α → Ans α
   | .setTables _ | .setBreaks _ | .logLik => .val (logCompute t bps).ll
   | .posterior => match logPosterior t bps with | some m => .mat m | none => .exc
-  | .d1 _ => .exc
+  | .d1 _ | .d2 _ => .exc
 
 /-! ### LowMemoryRescaledHmmLikelihood (no posteriors, no derivatives) -/
 
@@ -445,6 +515,7 @@ structure LowObj (α : Type) where
   maxSize : Nat
   logLik : α
   dVar : String
+  d2Var : String
 
 def lowCompute (t : Tables α) (maxSize : Nat) (bps : List Nat) : α :=
   lowForward t.p maxSize t.e0 (mkSites t.es bps)
@@ -452,7 +523,7 @@ def lowCompute (t : Tables α) (maxSize : Nat) (bps : List Nat) : α :=
 /-- `none` = the constructor throws (`maxSize = 0`) -/
 def LowObj.build (t : Tables α) (maxSize : Nat) : Option (LowObj α) :=
   if maxSize == 0 then none
-  else some { tab := t, bps := [], maxSize := maxSize, logLik := lowCompute t maxSize [], dVar := "" }
+  else some { tab := t, bps := [], maxSize := maxSize, logLik := lowCompute t maxSize [], dVar := "", d2Var := "" }
 
 def LowObj.step (o : LowObj α) : Op α → LowObj α × Ans α
   | .setTables t => let ll := lowCompute t o.maxSize o.bps; ({ o with tab := t, logLik := ll }, .val ll)
@@ -463,6 +534,8 @@ def LowObj.step (o : LowObj α) : Op α → LowObj α × Ans α
     -- getFirstOrderDerivative stores the name, then computeDLikelihood_ throws NotImplementedException:
     -- a second call with the same name answers -dLogLik_ = -0
     if var != o.dVar then ({ o with dVar := var }, .exc) else (o, .val (-zero))
+  | .d2 var =>
+    if var != o.d2Var then ({ o with d2Var := var }, .exc) else (o, .val (-zero))
 
 /-! ## Specification: sum over all hidden paths -/
 
